@@ -245,6 +245,13 @@ def run(chk: Check, tier: str):
                 machinery_failure(f"MC_McsEnum: {res.violated} violated by the specification itself")
             tlc.require_ok(res, "MC_McsEnum")
             chk.add_tlc("MC_McsEnum", res, "all 256 families over 3 keys x all enumeration orders")
+    # ---- unbounded companion of the model check: the exactness lemma proved by the TLA+ proof system (any family, any keys)
+    import tlaps
+
+    pr = tlaps.prove("McsLemma")
+    chk.cov["tlaps_McsLemma"] = {k: pr[k] for k in ("available", "proved", "refuted", "obligations", "wall_s")}
+    if pr["refuted"]:  # an obligation the provers reject is a fault of the specification; an unavailable / crashing prover is only recorded
+        machinery_failure("tlapm could not re-check spec/McsLemma.tla:\n" + pr["out"])
     # ---- (a) CNF faithfulness
     sig2 = ["a", "b"]
     f0, f1 = all_formulas(sig2, 0), all_formulas(sig2, 1)
